@@ -27,6 +27,7 @@ type Cfg struct {
 	XHTML     bool
 	HardWraps bool
 	Align     string // "", "attr", "style": pins the table cell alignment method
+	Explicit  bool   // the renderer switches that are off are passed explicitly as renderer.WithOption(name, false)
 }
 
 // ExtNames is the extension axis of the lattice.
@@ -52,6 +53,9 @@ func (c Cfg) String() string {
 	}
 	if c.Align != "" {
 		s += "+align=" + c.Align
+	}
+	if c.Explicit {
+		s += "+explicit"
 	}
 	return s
 }
@@ -99,6 +103,8 @@ func ParseCfg(s string) (Cfg, error) {
 			c.XHTML = true
 		case f == "hardwraps":
 			c.HardWraps = true
+		case f == "explicit":
+			c.Explicit = true
 		case strings.HasPrefix(f, "align="):
 			c.Align = strings.TrimPrefix(f, "align=")
 		default:
@@ -281,13 +287,32 @@ func (c Cfg) RendererOptions() []renderer.Option {
 
 // New builds a fresh Markdown instance for this configuration.
 func (c Cfg) New() goldmark.Markdown {
+	if c.Explicit {
+		return c.NewVia(4)
+	}
 	return goldmark.New(goldmark.WithExtensions(c.Extenders()...),
 		goldmark.WithParserOptions(c.ParserOptions()...),
 		goldmark.WithRendererOptions(c.RendererOptions()...))
 }
 
 // Channels lists the ways NewVia can hand the same options to the library.
-var Channels = []string{"standard", "direct-constructors", "late-AddOptions", "split"}
+var Channels = []string{"standard", "direct-constructors", "late-AddOptions", "split", "explicit-false"}
+
+// explicitRendererOptions returns the renderer options of c with every switch that is off passed explicitly as
+// renderer.WithOption(name, false) (the generic option channel every node renderer's SetOption sees).
+func (c Cfg) explicitRendererOptions() []renderer.Option {
+	ro := c.RendererOptions()
+	if !c.Unsafe {
+		ro = append(ro, renderer.WithOption("Unsafe", false))
+	}
+	if !c.XHTML {
+		ro = append(ro, renderer.WithOption("XHTML", false))
+	}
+	if !c.HardWraps {
+		ro = append(ro, renderer.WithOption("HardWraps", false))
+	}
+	return ro
+}
 
 func (c Cfg) htmlOptions() []html.Option {
 	var ro []html.Option
@@ -312,6 +337,7 @@ func (c Cfg) htmlOptions() []html.Option {
 //	                       given to html.NewRenderer are by design not propagated to the renderers of extensions
 //	2 late-AddOptions:     goldmark.New(WithExtensions) first, then Parser().AddOptions / Renderer().AddOptions
 //	3 split:               parser options through New, renderer options one AddOptions call each, in reverse order
+//	4 explicit-false:      as standard, plus renderer.WithOption(name, false) for every renderer switch that is off
 func (c Cfg) NewVia(ch int) goldmark.Markdown {
 	switch ch {
 	case 1:
@@ -333,7 +359,13 @@ func (c Cfg) NewVia(ch int) goldmark.Markdown {
 		}
 		return m
 	}
-	return c.New()
+	if ch == 4 {
+		return goldmark.New(goldmark.WithExtensions(c.Extenders()...), goldmark.WithParserOptions(c.ParserOptions()...),
+			goldmark.WithRendererOptions(c.explicitRendererOptions()...))
+	}
+	cc := c
+	cc.Explicit = false
+	return cc.New()
 }
 
 // GoExpr returns Go source that builds this configuration (for generated replay tests).
